@@ -170,5 +170,8 @@ class Verdict:
             sys.exit(1)
         if self.inconclusive:
             log(f"[{self.prop}] INCONCLUSIVE: {self.inconclusive[:10]}")
+            for o in self.obligations:
+                if o["status"] == "inconclusive":
+                    log(f"    {o['name']}: {str(o['detail'])[:300]}")
             sys.exit(2)
         sys.exit(0)
